@@ -32,7 +32,7 @@ namespace hv
         }
 
         // fault plan (C14 with dynamic children alive): `fault <fid> <phase> <occ>` - fid names a library function kind
-        enum { FID_ADDONE = 7001, FID_ACCUM = 7002, FID_ADDKEY = 7003, FID_TICKAFTER = 7004, FID_FAILON = 7005 };
+        enum { FID_ADDONE = 7001, FID_ACCUM = 7002, FID_ADDKEY = 7003, FID_TICKAFTER = 7004, FID_FAILON = 7005, FID_ADDINTS = 7006 };
         void hfault(long long fid, int phase) { ctx().faults.maybe_throw(fid, phase); }
 
         // ---------------------------------------------------------------- function library
@@ -134,6 +134,18 @@ namespace hv
         {
             static constexpr auto name = "ho_add_ints";
             static void eval(In<"lhs", TS<Int>> a, In<"rhs", TS<Int>> b, Out<TS<Int>> out) { out.set(a.value() + b.value()); }
+        };
+        struct NAddIntsL
+        {   // the same combiner with lifecycle hooks and fault points (C14: combiner graphs alive at the fault time)
+            static constexpr auto name = "ho_add_ints_l";
+            static void start(DateTime now) { hlog("start", "AddIntsL", now); hfault(FID_ADDINTS, PH_START); }
+            static void stop(DateTime now) { hlog("stop", "AddIntsL", now); hfault(FID_ADDINTS, PH_STOP); }
+            static void eval(In<"lhs", TS<Int>> a, In<"rhs", TS<Int>> b, DateTime now, Out<TS<Int>> out)
+            {
+                hlog("ev", "AddIntsL", now, a.value(), b.value());
+                hfault(FID_ADDINTS, PH_EVAL);
+                out.set(a.value() + b.value());
+            }
         };
         struct NMax
         {
@@ -306,10 +318,19 @@ namespace hv
                         Port<D> d{w, src(st, "d")};
                         Port<void> out;
                         if (st.has("d2")) out = wire<stdlib::map_>(w, f, d, Port<D>{w, src(st, "d2")});
+                        else if (st.has("b") && st.geti("pb", 0)) out = wire<stdlib::map_>(w, f, d, passive(Port<TS<Int>>{w, src(st, "b")}));
                         else if (st.has("b")) out = wire<stdlib::map_>(w, f, d, Port<TS<Int>>{w, src(st, "b")});
                         else out = wire<stdlib::map_>(w, f, d);
                         ps.ref[id]   = out.as<D>().erased();
                         ps.shape[id] = "TSD";
+                    }
+                    else if (k == "chain")
+                    {   // chain <id> src=<id> n=<k>: k AddOne nodes in a row over a TS<Int> producer (a producer of some depth)
+                        long long id = std::stoll(st.tok.at(1));
+                        P p{w, src(st, "src")};
+                        for (long long i = 0; i < st.geti("n", 2); ++i) p = wire<NAddOne>(w, p);
+                        ps.ref[id]   = p.erased();
+                        ps.shape[id] = "TS";
                     }
                     else if (k == "maperr")
                     {
@@ -330,6 +351,8 @@ namespace hv
                                 out = st.has("zero") ? wire<stdlib::reduce_>(w, fn<stdlib::add_>(), coll, Int{st.geti("zero")}) : wire<stdlib::reduce_>(w, fn<stdlib::add_>(), coll);
                             else if (f == "AddInts")
                                 out = st.has("zero") ? wire<stdlib::reduce_>(w, fn<NAddInts>(), coll, Int{st.geti("zero")}) : wire<stdlib::reduce_>(w, fn<NAddInts>(), coll);
+                            else if (f == "AddIntsL")
+                                out = st.has("zero") ? wire<stdlib::reduce_>(w, fn<NAddIntsL>(), coll, Int{st.geti("zero")}) : wire<stdlib::reduce_>(w, fn<NAddIntsL>(), coll);
                             else if (f == "MaxG")
                                 out = st.has("zero") ? wire<stdlib::reduce_>(w, fn<MaxG>(), coll, Int{st.geti("zero")}) : wire<stdlib::reduce_>(w, fn<MaxG>(), coll);
                             else throw std::invalid_argument("higher_order: unknown combiner " + f);
